@@ -38,7 +38,17 @@ class LifeWorld(SctpWorld):
         self.reactive = spec.get("reactive", {})
         self._echoed = set()
         self.op_hook = LifeWorld._op_hook
+        self.last_reset_request = {}  # destination -> the last datagram carrying an Outgoing SSN Reset Request delivered to it
         super().__init__(spec)
+        self.delivery_hook = self._remember_reset_request
+
+    def _remember_reset_request(self, dst, data):
+        try:
+            for c in S.parse_packet(data)[3]:
+                if isinstance(c, S.ReconfigChunk) and any(p[0] == 13 for p in c.params):
+                    self.last_reset_request[dst] = bytes(data)
+        except ValueError:
+            pass
 
     # ---- channel bookkeeping
     def _attach(self, view, side, channel):
@@ -349,6 +359,36 @@ def reuse_probe(w):
             if len(view.sent[src]) != 3 or len(view.recv[dst]) != 3:
                 out.append(("close/id-not-reusable", "%s: %d of %d messages %s>%s delivered on a re-used id" % (
                     label, len(view.recv[dst]), len(view.sent[src]), src, dst)))
+    if out:
+        return out
+    # the network now delivers a late duplicate of the last stream reset request each side had received (it was answered
+    # long ago): the channels that re-use the ids stay open and keep working
+    for dst, data in sorted(w.last_reset_request.items()):
+        rx = w.dtls[dst].receiver
+        if rx is not None:
+            w.loop.create_task(rx._handle_data(data))
+            w.loop.drain()
+    step = []
+    for label in labels:
+        step.append(("send", "A", label, C.pay(label + "a", 3, 60)))
+        step.append(("send", "B", label, C.pay(label + "b", 3, 60)))
+    w.script.append(step)
+    m = w.menu()
+    if m:
+        w.apply(m[0])
+    w.run_default()
+    out += C.check_tasks(w) + C.check_delivery(w)
+    for label in labels:
+        view = w.channels[label]
+        for side in "AB":
+            ch = view.ends.get(side)
+            if ch is not None and ch.readyState != "open":
+                out.append(("close/reused-id-closed-by-stale-request", "%s@%s is %s after a late duplicate of an old stream reset request" % (
+                    label, side, ch.readyState)))
+        for src, dst in (("A", "B"), ("B", "A")):
+            if not out and len(view.recv[dst]) != 4:
+                out.append(("close/id-not-reusable", "%s: %d of 4 messages %s>%s delivered on a re-used id after a late duplicate of an old reset request" % (
+                    label, len(view.recv[dst]), src, dst)))
     return out
 
 
@@ -578,7 +618,7 @@ def run(tier, seed):
              "<= 1 datachannel event per channel with equal id/label/protocol/ordered/reliability, no id collisions, readyState "
              "forward only with <= 1 open/close event, bufferedAmount >= 0 and equal to the queued bytes, bufferedamountlow exactly at "
              "downward crossings (and the amount read inside its handler is at or below the threshold); at the healed terminal point: closed on both ends after close(), freed ids reusable (new negotiated "
-             "pair carries 3 messages each way in order although its first datagram is lost), all channels closed when the "
+             "pair carries 3 messages each way in order although its first datagram is lost, and stays open when a late duplicate of the old reset request arrives), all channels closed when the "
              "association ended, bufferedAmount 0" % (2 if tier == "quick" else 3),
         assumptions=["DTLS stand-in; transport send never suspends; deviation bound k per program",
                      "empty messages are accounted by the implementation as one placeholder byte: allowed as slack in the equality"])
